@@ -96,9 +96,11 @@ def _work(args):
 
 
 def _init_worker():
+    import logging
     import warnings
 
     warnings.filterwarnings("ignore")
+    logging.disable(logging.ERROR)
 
 
 def explore(prop_id, tier, seed, child=False):
@@ -187,6 +189,7 @@ def main(argv=None):
     import warnings
 
     warnings.filterwarnings("ignore")
+    _init_worker()
 
     if replay:
         mod = importlib.import_module(f"mc.props.{prop_id}")
@@ -237,7 +240,7 @@ def main(argv=None):
             "transitions": total.transitions,
             "traces_validated_against_impl": total.transitions,
             "exhaustive": not total.caps,
-            "bound": desc.get("bound", ""),
+            "bound": desc.get("bound", "") + ("; " + desc["bound_builder"] if "bound_builder" in desc else ""),
             "rule": desc.get("rule", ""),
             "distinct_outcomes": dict(sorted(total.outcomes.items())),
             "counters": dict(sorted(total.extra.items())),
